@@ -61,7 +61,8 @@ fn cases(tier: Tier) -> Vec<Case> {
         });
     }
     for mode in 0 .. 4u8 {
-        let b = if mode == 0 { dev.min(1) } else { 0 };
+        // every body framing gets the single-field deviations (a long body must survive chunked / close-delimited / gzip too)
+        let b = dev.min(1);
         v.push(Case {
             label: format!("eco http mode={} dev<={b}", ["content-length", "chunked", "close-delimited", "gzip"][mode as usize]),
             what: What::Eco { mode },
